@@ -248,7 +248,34 @@ def expr(typ, comps, depth):
              st.tuples(sub(typ), sub(typ)).map(lambda t: ("nvl", nvl_first(t[0]), t[1]) if has_comp(nvl_first(t[0])) or not has_comp(t[1]) else t[1]),
              st.tuples(sub("Boolean"), sub(typ), sub(typ)).map(lambda t: ("case", [(with_comp(t[0]), t[1])], t[2])),
              st.tuples(sub("Boolean"), sub(typ), sub(typ), sub(typ)).map(lambda t: ("case", [(with_comp(t[0]), t[1]), (("un", "not", with_comp(t[0])), t[2])], t[3]))]
-    return st.one_of(opts)
+    return st.one_of(opts).map(lambda e: _cap_products(e, typ))
+
+
+def _mult_scale(e):
+    """Decimal scale DuckDB needs for the expression when Numbers are DECIMAL(p, 10): a product adds the scales of its factors."""
+    if not isinstance(e, tuple):
+        return 0
+    if e[0] == "lit":
+        return 10 if e[1] == "Number" else 0
+    if e[0] == "comp":
+        return 10
+    if e[0] == "bin" and e[1] == "*":
+        return _mult_scale(e[2]) + _mult_scale(e[3])
+    if e[0] == "bin" and e[1] in ("/", "power", "mod"):
+        return 10
+    kids = [x for x in e[1:] if isinstance(x, (tuple, list))]
+    flat = []
+    for k in kids:
+        flat += list(k) if isinstance(k, list) else [k]
+    return max([_mult_scale(k) for k in flat if isinstance(k, tuple)] + [0])
+
+
+def _cap_products(e, typ):
+    """Known finding C01-number-product-scale: a product of four or more Number factors needs a DECIMAL scale above 38 and is rejected by
+    the engine (RunTimeError 2-1-1-1 'Needed scale 40 ...'); such shapes are not generated (a dedicated probe in C01 reports the finding)."""
+    if typ in ("Number", "Integer") and _mult_scale(e) > 30:
+        return ("lit", typ, Fraction(2) if typ == "Number" else 2)
+    return e
 
 
 def has_comp(e):
